@@ -660,8 +660,8 @@ func ruleLogicDispatch(p *Program, r *Reporter) {
 		}
 	}
 	type clause struct {
-		opConst string     // decides on op == X alone
-		table   *tableFn   // decides on types and calls this table
+		opConst string   // decides on op == X alone
+		table   *tableFn // decides on types and calls this table
 		tname   string
 		pos     token.Pos
 		other   bool
@@ -1348,6 +1348,45 @@ func rulePoll(p *Program, r *Reporter) {
 			r.Undecided(key, p.Pos(firstPos(b)), "cannot see what bounds this loop inside the interpreter; an unbounded loop inside one instruction is not interrupted by the poll")
 		}
 	}
+	// loops in everything the interpreter calls: one instruction must not hide a
+	// loop whose trip count is a number supplied by the script
+	reach := p.Reachable(run)
+	var rfns []*ssa.Function
+	for fn := range reach {
+		if fn == run || fnPkg(fn) == nil || !IsLibPath(fnPkg(fn).Pkg.Path()) {
+			continue
+		}
+		rfns = append(rfns, fn)
+	}
+	sort.Slice(rfns, func(i, j int) bool { return p.FnName(rfns[i]) < p.FnName(rfns[j]) })
+	for _, fn := range rfns {
+		nth := 0
+		for _, b := range fn.Blocks {
+			isHeader := false
+			for _, pr := range b.Preds {
+				if b.Dominates(pr) {
+					isHeader = true
+				}
+			}
+			if !isHeader {
+				continue
+			}
+			nth++
+			key := fmt.Sprintf("%s/loop %d is bounded by data that already exists", p.FnName(fn), nth)
+			switch bound := loopBound(b, fn); bound {
+			case "len", "range-over-container", "operand":
+				r.Ok(key, p.Pos(firstPos(b)), "bounded by "+bound)
+			case "range-constructor":
+				r.Fail(key, p.Pos(firstPos(b)), "the number of iterations of this loop is a number taken from a script value (an Integer's or Float's Value), and the loop runs inside a single instruction: the context is polled between instructions only, so `3 ** N` with N = 9e15 from the object spins for years and no deadline or cancellation stops it")
+			default:
+				if why := loopListed(p, fn, b); why != "" {
+					r.OkNT(key, p.Pos(firstPos(b)), why)
+				} else {
+					r.Undecided(key, p.Pos(firstPos(b)), "cannot see what bounds this loop, which runs inside a single instruction of the interpreter; an unbounded loop there is not interrupted by the poll")
+				}
+			}
+		}
+	}
 	// re-entry only through the interpreter itself: no other function
 	// dispatches on opcodes and executes handlers (the walker only reads)
 	for _, fn := range p.LibFns {
@@ -1368,6 +1407,12 @@ func rulePoll(p *Program, r *Reporter) {
 		}
 		r.Check(!pushes, p.FnName(fn)+" decodes but does not execute", p.Pos(fn.Pos()), "no stack effects", "a second function decodes opcodes and executes them outside the polled loop")
 	}
+}
+
+// loopListed: loops reachable from the interpreter whose bound is not one of
+// the recognised forms, each with the reason it terminates promptly.
+func loopListed(p *Program, fn *ssa.Function, h *ssa.BasicBlock) string {
+	return ""
 }
 
 func firstPos(b *ssa.BasicBlock) token.Pos {
@@ -1449,7 +1494,22 @@ func loopBound(h *ssa.BasicBlock, fn *ssa.Function) string {
 			}
 			return false
 		}
-		isLen := func(v ssa.Value) bool { _, ok := isBuiltinCall(v, "len"); return ok }
+		isLen := func(v ssa.Value) bool {
+			if _, ok := isBuiltinCall(v, "len"); ok {
+				return true
+			}
+			// the size of an existing host value, through reflection
+			if c, ok := v.(*ssa.Call); ok {
+				name := ""
+				if c.Call.IsInvoke() {
+					name = c.Call.Method.Name()
+				} else if cal := c.Call.StaticCallee(); cal != nil && cal.Pkg != nil && cal.Pkg.Pkg.Path() == "reflect" {
+					name = cal.Name()
+				}
+				return name == "Len" || name == "NumField" || name == "NumMethod"
+			}
+			return false
+		}
 		isValueField := func(v ssa.Value) bool {
 			if u, ok := v.(*ssa.UnOp); ok {
 				if fa, ok := u.X.(*ssa.FieldAddr); ok && objectStructName(fa.X.Type()) != "" {
